@@ -311,7 +311,7 @@ func runMPSCConcOnce(c mpscConcCase) outcome {
 			}
 		}(p)
 	}
-	// progress monitor: accepted pushes + completed pops must keep moving; 6 s of wall time without any progress while
+	// progress monitor: accepted pushes + completed pops must keep moving; 15 s of wall time without any progress while
 	// goroutines are still trying means the queue is wedged (an element was reserved and never published, or the
 	// consumer follows a bogus chunk): that is a lost event, not a timing matter.
 	finished := make(chan struct{})
@@ -338,7 +338,7 @@ monitor:
 			} else {
 				idle, lastProgress = 0, p
 			}
-			if idle >= 60 {
+			if idle >= 150 {
 				wedged = true
 				break monitor
 			}
@@ -346,7 +346,7 @@ monitor:
 	}
 	ticker.Stop()
 	if wedged {
-		o.Err = fmt.Errorf("queue wedged: no push was accepted or refused and no pop completed for 6 s although %d of %d events were accepted and only %d consumed", pushAccepted.Load(), total, popDone.Load())
+		o.Err = fmt.Errorf("queue wedged: no push was accepted or refused and no pop completed for 15 s although %d of %d events were accepted and only %d consumed", pushAccepted.Load(), total, popDone.Load())
 		o.Sig = vh.Sig(fmt.Sprint(c))
 		return o
 	}
